@@ -138,9 +138,43 @@ def run(ctx):
                        "verdict": {"verdict": v, "pos": pos, "clause": clause}, "tlc_cfg": "FormulaTrace.cfg"})
     if traces:
         ctx.sample({"trace": traces[0]}, cap=8)
+    _binding_selftest(ctx, [t for t, (v, _, _) in zip(traces, verdicts) if v == "accept"])
 
     # ---- code -> spec: every formula the repository's own tests parse, judged by the full spec
     _suite_stage(ctx)
+
+
+def _binding_selftest(ctx, accepted):
+    """Demonstrate the binding: corrupt one recorded field of accepted traces and require TLC to
+    reject each of them with the matching clause (a trace spec that constrained nothing would not)."""
+    import copy
+    import core
+    bad, want = [], []
+    for tr in accepted:
+        ev = tr[-1]
+        if ev["raised"]:
+            c = copy.deepcopy(tr)
+            c[-1].update(raised=False, comp=[[1, [1, 1]]], q=0)
+            bad.append(c)
+            want.append("missing-raise")
+        elif ev["comp"]:
+            c = copy.deepcopy(tr)
+            c[-1]["comp"][0][1][0] += c[-1]["comp"][0][1][1]      # one more atom of the first element
+            bad.append(c)
+            want.append("comp")
+            c = copy.deepcopy(tr)
+            c[-1]["q"] += 1
+            bad.append(c)
+            want.append("charge")
+        if len(bad) >= 60:
+            break
+    if not bad:
+        raise core.MachineryFailure("binding self-test: no accepted trace to corrupt")
+    got = ctx.validate_traces("FormulaTrace", "FormulaTrace.cfg", bad, count=False)
+    for (v, pos, clause), w in zip(got, want):
+        if v != "reject" or clause != w:
+            raise core.MachineryFailure("binding self-test: corrupted trace gave %s/%s, expected reject/%s" % (v, clause, w))
+    ctx.counters["selftest_corrupted_traces_rejected"] += len(bad)
 
 
 SUITE_TESTS = ["chempy/util/tests/test_parsing.py", "chempy/tests/test_chemistry.py",
